@@ -788,7 +788,10 @@ Definition total_long_override : spec QcNum :=
 Example total_example_wf : wf_spec QcNum total_example_spec = true.
 Proof. vm_compute. reflexivity. Qed.
 Example total_example_accepted : exists md, build QcNum total_example_spec = Ok md /\ md_npars QcNum md = 13.
-Proof. destruct (wf_implies_accepted QcNum _ total_example_wf) as [md H]. exists md. split; auto. vm_compute in H. inversion H; subst. reflexivity. Qed.
+Proof.
+  assert (H : match build QcNum total_example_spec with Ok md => md_npars QcNum md = 13 | Err _ => False end) by (vm_compute; reflexivity).
+  destruct (build QcNum total_example_spec) as [md|e]; [exists md; auto|destruct H].
+Qed.
 Example total_no_lumi_settings_refused :
   wf_settings_present QcNum total_no_lumi_settings = false /\ wf_spec QcNum total_no_lumi_settings = false /\
   build QcNum total_no_lumi_settings = Err EInvalidModel.
